@@ -184,6 +184,6 @@ MUTANTS = [
     dict(file=D2, func="DelayAdjustedSTDP.forward", old="t_delta = t_pre - t_post - cell.connection.delay.unsqueeze(-1)", new="t_delta = t_pre - t_post + cell.connection.delay.unsqueeze(-1)", contracts=["DelayAdjustedSTDP.forward"]),
     dict(file=D2, func="DelayAdjustedSTDP.forward", old="match (state.lr_pos >= 0, state.lr_neg >= 0):", new="match (state.lr_pos >= 0, self.lr_neg >= 0):", contracts=["DelayAdjustedSTDP.forward"], name="seed C18: routing by trainer default lr_neg"),
     dict(file=SK, func="exp_stdp_post_kernel", old="(diff >= 0)", new="(diff > 0)", contracts=["stdkernels", "KernelSTDP.forward"]),
-    dict(file=SK, func="exp_stdp_pre_kernel", old="torch.exp(diff.abs() / -time_constant)", new="torch.exp(diff.abs() / time_constant)", contracts=["stdkernels"]),
+    dict(file=SK, func="exp_stdp_pre_kernel", old="torch.exp(diff.abs() / (-time_constant))", new="torch.exp(diff.abs() / (time_constant))", contracts=["stdkernels"]),
     dict(file=KS, func="KernelSTDP.forward", old="t_delta = t_pre - t_post", new="t_delta = t_post - t_pre", contracts=["KernelSTDP.forward"]),
 ]
